@@ -519,9 +519,10 @@ def conditions(N, program, body, target, terms=None, start=0, inline=False):
     return out
 
 
-def conditions_dnf(N, program, body, target, terms=None, start=0, inline=False, cap=32):
+def conditions_dnf(N, program, body, target, terms=None, start=0, inline=False, cap=32, raw=False):
     """like conditions(), but a test on a selection with several feasible branches is split: a list of alternatives, each a
-    list of (switch block, label, test term); [] if the target is unreachable"""
+    list of (switch block, label, test term) — with raw=True (switch block, label, test term, label of the CFG edge);
+    [] if the target is unreachable"""
     alts = [[]]
     for sb, labs, t in flow.conditions(program, body, target, terms, start):
         tn = N.inline(t) if inline else N.norm(t)
@@ -532,8 +533,8 @@ def conditions_dnf(N, program, body, target, terms=None, start=0, inline=False, 
         new = []
         for a in alts:
             for d in ds:
-                cand = a + [(sb, l2, t2) for t2, l2 in d]
-                if not contradictory([(t3, l3) for _sb, l3, t3 in cand]):
+                cand = a + [((sb, l2, t2, labs) if raw else (sb, l2, t2)) for t2, l2 in d]
+                if not contradictory([(c_[2], c_[1]) for c_ in cand]):
                     new.append(cand)
         alts = new
         if not alts:
